@@ -14,7 +14,8 @@ RULE = ("every operation sequence up to depth D over the suite's alphabet (seq/s
         "transitions = operation applications, traces_validated_against_impl = histories replayed on the implementation (all of them). "
         "distinct_nontrivial = histories that reached a non-initial model state (at least one operation).")
 
-MAX_ABORTS_PER_UNIT = 8
+MAX_ABORTS_PER_UNIT = 4
+MAX_EVENTS_PER_RUN = 24  # aborts + hangs after which the run stops early (violations are reported anyway)
 
 def seq_info(binary, suite, tier):
     out = subprocess.run([binary, "alphabet", "--suite", suite, "--tier", tier], stdout=subprocess.PIPE, text=True, check=True).stdout.splitlines()
@@ -44,10 +45,20 @@ def run_profile(binary, suite, tier, seed, nshards, tag, cap):
     def launch(i):
         s = shards[i]
         s["proc"] = subprocess.Popen([binary, "run", "--suite", suite, "--tier", tier, "--seed", str(seed), "--shard", f"{i}/{nshards}", "--out", s["out"], "--state", s["state"]],
-                                     stdout=subprocess.DEVNULL, stderr=subprocess.PIPE, text=True)
+                                     stdout=subprocess.DEVNULL, stderr=subprocess.PIPE, text=True, env=dict(os.environ, SEQ_HANG_SECS="6"))
     pending = list(range(nshards))
     running = set()
+    stopped_early = False
     while pending or running:
+        if len(aborts) >= MAX_EVENTS_PER_RUN and not stopped_early:
+            # enough evidence of a broken tree: do not spend minutes on restarts
+            stopped_early = True
+            pending.clear()
+            for i in list(running):
+                shards[i]["proc"].kill()
+                shards[i]["proc"].wait()
+                running.discard(i)
+            break
         while pending and len(running) < NCPU:
             i = pending.pop(0)
             launch(i)
@@ -64,13 +75,13 @@ def run_profile(binary, suite, tier, seed, nshards, tag, cap):
             if rc == 0:
                 s["done"] = True
                 continue
-            m = re.search(r"ABORT-MARK sig=(\d+) unit=(\d+) index=(\d+) term=(\d+) step=(\d+) path=([\d,]*)", err)
-            if rc != 70 or not m:
+            m = re.search(r"(?:ABORT|HANG)-MARK sig=(\d+) unit=(\d+) index=(\d+) term=(\d+) step=(\d+) path=([\d,]*)", err)
+            if rc not in (70, 71) or not m:
                 raise MachineryError(f"E3 worker {tag} shard {i} died (exit {rc}): {err[-1500:]}")
             sig, unit, index, term = int(m.group(1)), int(m.group(2)), int(m.group(3)), int(m.group(4))
             step = int(m.group(5))
             path = [int(x) for x in m.group(6).split(",") if x]
-            aborts.append({"unit": unit, "index": index, "term": term, "path": path, "sig": sig, "stderr": err[-400:]})
+            aborts.append({"unit": unit, "index": index, "term": term, "path": path, "sig": sig, "stderr": err[-400:], "hang": rc == 71})
             s["aborts"] = s["aborts"] + 1 if s.get("abort_unit") == unit else 1
             s["abort_unit"] = unit
             # finished units are in the out file; restart the shard skipping them and the aborting run
@@ -105,12 +116,15 @@ def run_profile(binary, suite, tier, seed, nshards, tag, cap):
                 raise MachineryError(f"E3 run {tag} exceeded its wall-clock cap of {cap}s")
             time.sleep(0.02)
     rows = {}
-    abandoned = []
+    abandoned = ["stopped early after %d aborts/hangs" % len(aborts)] if stopped_early else []
     for i, s in shards.items():
         abandoned += s.get("abandoned", [])
         if os.path.exists(s["out"]):
             for line in open(s["out"]):
-                r = json.loads(line)
+                try:
+                    r = json.loads(line)
+                except Exception:
+                    continue
                 rows[r["unit"]] = r  # a re-run unit overrides
             os.remove(s["out"])
         os.remove(s["state"])
@@ -173,8 +187,9 @@ def part(prop, tier, seed, suite=None, profiles=("prel",), diff=False, all_tags=
             kind, ln, first = units.get(a["unit"], ("?", 0, "-"))
             hist = ",".join(alphabet[i] for i in a["path"])
             term = terms[a["term"]] if a["term"] < len(terms) else "drop"
-            viols.append({"prop": prop, "engine": "E3", "class": "abort", "kind": kind, "len": ln, "history": hist, "term": term, "profile": prof, "count": 1,
-                          "msg": f"[{prof}] kind={kind} len={ln} history={hist} then {term}: process aborted (signal {a['sig']}): {a['stderr'].strip().splitlines()[0] if a['stderr'].strip() else ''}",
+            what = "does not return (no progress for 6 s: a call spins forever)" if a.get("hang") else f"process aborted (signal {a['sig']}): {a['stderr'].strip().splitlines()[0] if a['stderr'].strip() else ''}"
+            viols.append({"prop": prop, "engine": "E3", "class": "no-return" if a.get("hang") else "abort", "kind": kind, "len": ln, "history": hist, "term": term, "profile": prof, "count": 1,
+                          "msg": f"[{prof}] kind={kind} len={ln} history={hist} then {term}: {what}",
                           "replay_cmd": f"{binary} replay --suite {suite} --kind {kind} --len {ln} --history '{hist}' --term {term}"})
         per_profile[prof] = pp
     ndiff = 0
